@@ -91,6 +91,12 @@ def time_case_ics(sc, c, uid):
         lines.append("FREEBUSY:%s/%s" % (sc.utc(c["fbstart"]), sc.utc(c["fbend"])))
     if k != "VFREEBUSY":
         lines.append("SUMMARY:case")
+        # free text of every repertoire (astral plane, XML-significant, combining ...): what the
+        # report returns as calendar-data is compared with GET
+        from . import icsgen
+        import zlib
+        word = icsgen.WORDS[zlib.crc32(uid.encode()) % len(icsgen.WORDS)]
+        lines.append("DESCRIPTION:" + icsgen.esc(word))
     lines.append("END:" + k)
     lines.append("END:VCALENDAR")
     return ("\r\n".join(lines) + "\r\n").encode("utf-8")
@@ -160,7 +166,7 @@ def run_time_cases(cases, zone, mode, frontend="wsgi"):
         # calendar-data of every returned resource must be what GET serves
         data_ok = True
         checked = 0
-        for n, d in list(datas.items())[:40]:
+        for n, d in list(datas.items())[:120]:
             g = w.request("GET", "/user/calendars/t/" + n)
             checked += 1
             if g.status != 200 or g.body.replace(b"\r\n", b"\n") != d:
